@@ -2102,6 +2102,7 @@ func runC13() {
 		printParseCase(fmt.Sprintf("genB%d", k), genSchema(r, o))
 	}
 	serdeCases()
+	concurrentCases()
 }
 
 func main() {
